@@ -41,7 +41,7 @@ WRITER_ONLY_OK = {
     'crystal_lattice': 'redundant with crystal_yaml (kept for non-python readers)',
     'crystal_basisarray': 'redundant with crystal_yaml', 'crystal_basisindex': 'redundant with crystal_yaml',
     'crystal_chemistry': 'redundant with crystal_yaml',
-    '<pattern: coeffstr>': 'Taylor coefficients are read by iterating over the group items',
+    '<pattern: self.HDF5str.format(_, _)>': 'Taylor coefficients are read by iterating over the group items',
 }
 
 
